@@ -8,7 +8,7 @@
    [collect_item] is the collector's handling of one piece after the clock was read
    (Collector._collect -> _TranslatingCallback -> _IntervaledCallback -> Generate/VerifyCallback). *)
 From Coq Require Import Lia Sorted.
-From Torf Require Import Base Pipeline PipelineProofs FlowProofs LastCallProofs VerifyTrueProofs LastCallVerify DrainProofs LastCallVerdict PipeExplore PipeExploreProofs PipeConfigs.
+From Torf Require Import Base Pipeline PipelineProofs FlowProofs LastCallProofs VerifyTrueProofs LastCallVerify DrainProofs LastCallVerdict LastCallQuietGen PipeExplore PipeExploreProofs PipeConfigs.
 Open Scope Z_scope.
 
 (* under every schedule, thread count, interval and input: the done counter of every report lies
@@ -69,6 +69,16 @@ Theorem C12_last_report_is_total_unstopped : forall c s r hs,
   exists pre idx e, s_calls s = pre ++ [(cf_total c, idx, e)].
 Proof. exact last_call_reports_total_unstopped_generate. Qed.
 Print Assumptions C12_last_report_is_total_unstopped.
+
+(* ... and with a passive callback a hashing run over readable content is never told to stop: every such run that
+   returns a verdict returns True and made its last report with done = total -- no side condition left. *)
+Theorem C12_last_report_is_total_quiet : forall c s r hs,
+  (1 <= cf_hashers c)%nat -> reach c s -> cf_verify c = None -> cf_plan c = CbQuiet ->
+  yielded (cf_items c) = map RPiece hs -> cf_total c = zlen hs -> 0 < cf_total c ->
+  s_result s = Some r -> verdict r ->
+  r = ResTrue /\ exists pre idx e, s_calls s = pre ++ [(cf_total c, idx, e)].
+Proof. exact last_call_reports_total_quiet_generate. Qed.
+Print Assumptions C12_last_report_is_total_quiet.
 
 (* non-vacuity: a verification with a passive callback over three items of which the second carries a read error:
    the run returns False and its last report is (3, _, _) *)
